@@ -167,3 +167,29 @@ func VH_C16_STLString() {
 	vassert(veqstr(str2, str), "C16 stl string: second write identical")
 	vreach("end")
 }
+
+// C16 exact float kernel: the sub-second fraction digits, with the float64 steps encoded exactly (IEEE floating
+// point theory over bit-vectors, no relaxation) for every nanosecond offset within a second.
+func VH_C16_FractionExact() {
+	vsolver("cvc5") // exact IEEE queries: cvc5 decides them in seconds where z3 needs a minute (DESIGN.md section 4)
+	digits := []int{2, 3}[choose(2)]
+	i := nondetInt64(0, 999999999)
+	s := formatDuration(time.Duration(i), ".", digits)
+	vassert(len(s) == 9+digits, "C16 exact: shape")
+	var want int64
+	if digits == 3 {
+		want = i / 1000000
+	} else {
+		want = i / 10000000
+	}
+	// expected digits, most significant first
+	var exp []byte
+	for k := 0; k < digits; k++ {
+		exp = append([]byte{byte('0' + want%10)}, exp...)
+		want /= 10
+	}
+	for k := 0; k < digits; k++ {
+		vassert(s[9+k] == exp[k], "C16 exact: fraction digits are the truncated sub-second part")
+	}
+	vreach("end")
+}
